@@ -312,10 +312,11 @@ def shape_rk(env, events):
         raise Shape(f"gen_rk: stage stores are {stores}, expected k1..k6 in order")
     if kinds.count("rescale") != 1:
         raise Shape("gen_rk: expected exactly one rk_moles[j] *= (h / h_old) statement")
-    # nodes: first two are the time of k1 (before the loop and inside), then k2..k6
-    if len(nodes) != 7 or nodes[0] != 0 or nodes[1] != 0:
+    # nodes: first two are the time of k1 (before the loop and inside), then the end of the -runge_kutta 1 Euler step (the rate
+    # "at the end of the step" is evaluated at start + h_sum + h), then k2..k6
+    if len(nodes) != 8 or nodes[0] != 0 or nodes[1] != 0 or nodes[2] != 1:
         raise Shape(f"gen_rk: unexpected sequence of rate_sim_time assignments {nodes}")
-    c = [Fraction(0)] + nodes[2:]
+    c = [Fraction(0)] + nodes[3:]
     # Set_moles sequence (source order)
     if len(sets) != 11:
         raise Shape(f"gen_rk: expected 11 Set_moles(<combination>) statements, found {len(sets)}")
